@@ -182,7 +182,10 @@ def run(chk: Check) -> None:
     scfg = ffs.cfg
     store_nodes = [n for n in scfg.nodes if n.kind == 'stmt' and isinstance(n.ast, ast.Assign) and isinstance(n.ast.targets[0], ast.Subscript)
                    and norm(n.ast.targets[0].value) == sm.params[2]]
-    chk.ob('TAB-member-kinds', sm, len({id(n.ast) for n in store_nodes}) == 1, 'every member is stored at one site', kind='stored-under-name')
+    # one key expression for all stores (an extracted multi-return helper gives one store per kind), and it is the member's name
+    loops_ = [l for l in ast.walk(sm.node) if isinstance(l, ast.For) and norm(l.iter) == sm.params[1]]
+    keys_ = {norm(n.ast.targets[0].slice) for n in store_nodes}
+    chk.ob('TAB-member-kinds', sm, len(keys_) == 1 and len(loops_) == 1 and keys_ == {norm(loops_[0].target)}, 'every member is stored under its own name', kind='stored-under-name')
     tags = {}
     tables = {'save': [], 'tags': []}
     ism = [c for c in calls_in_func(sm) if norm(c.func) in ('inspect.ismethod', 'ismethod')]
@@ -203,6 +206,8 @@ def run(chk: Check) -> None:
                 if not idx:
                     continue
                 i = idx[0]
+                if len(idx) > 1 and path[-1] is scfg.exit and not any(m.kind == 'iter' for m in path[idx[0]:idx[1]]):
+                    dev.append((dict(val), 'stored twice in one iteration', ''))
                 stored = norm(value_on_path(path, i, path[i].ast.value))
                 base = norm(value_on_path(path, i, ast.Name(id=subj, ctx=ast.Load())))
                 # the first value ever bound to the subject on this path (the member itself)
@@ -345,14 +350,14 @@ def run(chk: Check) -> None:
         ctxp = [p_ for p_ in f_.params if 'context' in p_]
         # the load side of this class: does it hand the OUTER load context to the nested load?
         lname = '_get_value' if f_.name == 'save_members' else 'load_instance_state'
-        lf_ = f_.owner_class.methods.get(lname)
+        lf_ = f_.owner_class.vmethods.get(lname)
         outer = False
         if lf_ is not None:
             lctx = [p_ for p_ in lf_.params if 'context' in p_]
             outer = any(last_name(c2) == 'load' and len(c2.args) >= 2 and isinstance(c2.args[1], ast.Name) and c2.args[1].id in lctx for c2 in calls_in_func(lf_))
         if not outer:
             continue   # the nested state is loaded with a context of its own (no loader in it): default on both sides
-        for c in calls_in_func(f_, 'save'):
+        for c in calls_in_func(prog.view(f_), 'save'):   # (the view: the nested save may sit in an extracted private helper)
             if isinstance(c.func, ast.Attribute) and norm(c.func.value) not in ('super()',) and not norm(c.func.value).startswith('pickle') and not norm(c.func.value).startswith('yaml'):
                 n_nested += 1
                 passes = bool(ctxp) and any(isinstance(x, ast.Name) and x.id in ctxp for a_ in list(c.args) + [k.value for k in c.keywords] for x in ast.walk(a_))
@@ -363,7 +368,7 @@ def run(chk: Check) -> None:
     # a class that replaces recreate_from still restores what its subclasses declare: it goes through load_instance_state / load_members (or super().recreate_from)
     sv_ = prog.cls('persistence.Savable')
     for c_ in prog.subclasses(sv_):
-        rf_ = c_.methods.get('recreate_from')
+        rf_ = c_.vmethods.get('recreate_from')
         if rf_ is None:
             continue
         reach = {last_name(x) for x in calls_in_func(rf_)} | {norm(x.args[0]).split('.')[-1] for x in calls_in_func(rf_, 'call_with_super_check') if x.args}
@@ -389,14 +394,14 @@ def run(chk: Check) -> None:
     if '_CANCELLED' in states:
         chk.ob('DISP-future-state', rf, any(isinstance(c, ast.Call) and last_name(c) == 'cancel' for s in states['_CANCELLED'].body for c in ast.walk(s)), 'a cancelled future is restored cancelled', kind='cancelled-restored')
     if '_FINISHED' in states:
-        body = states['_FINISHED']
-        se = [c for c in ast.walk(body) if isinstance(c, ast.Call) and last_name(c) == 'set_exception']
-        sr = [c for c in ast.walk(body) if isinstance(c, ast.Call) and last_name(c) == 'set_result']
+        body = states['_FINISHED'].body   # the branch itself: an ``elif`` chain hangs the other states off its orelse
+        se = [c for s_ in body for c in ast.walk(s_) if isinstance(c, ast.Call) and last_name(c) == 'set_exception']
+        sr = [c for s_ in body for c in ast.walk(s_) if isinstance(c, ast.Call) and last_name(c) == 'set_result']
         ok = len(se) == 1 and len(sr) == 1 and norm(sr[0].args[0]) == 'result' and norm(se[0].args[0]) == 'exception'
         chk.ob('DISP-future-state', rf, ok, 'a finished future is restored with its exception if one was saved, else with its result', kind='finished-restored')
     if '_PENDING' in states:
-        body = states['_PENDING']
-        writes = [c for c in ast.walk(body) if isinstance(c, ast.Call) and last_name(c) in ('set_result', 'set_exception', 'cancel')]
+        body = states['_PENDING'].body
+        writes = [c for s_ in body for c in ast.walk(s_) if isinstance(c, ast.Call) and last_name(c) in ('set_result', 'set_exception', 'cancel')]
         chk.ob('DISP-future-state', rf, not writes, 'a pending future is restored pending', kind='pending-restored')
     sf = prog.func('persistence.SavableFuture.save_instance_state')
     ok = any(isinstance(n, ast.If) and 'self.done()' in norm(n.test) and 'self.exception() is not None' in norm(n.test)
